@@ -218,6 +218,54 @@ GRACKLE_ALIAS = {"electron": "De", "H": "HI", "H+": "HII", "He": "HeI", "He+": "
 ENZO_DEFINED = set(GRACKLE_ALIAS) | {"C", "C+", "O", "O+", "Si", "Si+", "Si++", "CH", "CH2", "CH3+", "C2", "CO", "HCO+", "OH", "H2O", "O2"}
 
 
+def yt_fields(out, net, order, label, viols):
+    """the yt companion of the Enzo patch (derived_fields_of_network.py): its table hands out one identifier per
+    species name; every identifier the table hands out, and every '<x>_ndensity' field a definition reads, must be a
+    derived field the same file defines, and the table has one entry per species, in slot order"""
+    import ast
+
+    f = out / "derived_fields_of_network.py"
+    if not f.exists():
+        viols.append(("C09:yt-fields:missing", f"{label}: the Enzo patch wrote no derived_fields_of_network.py", None))
+        return
+    txt = f.read_text()
+    try:
+        tree = ast.parse(txt)
+    except SyntaxError as e:
+        viols.append(("C09:yt-fields:not-python", f"{label}: derived_fields_of_network.py is not Python: {e}", None))
+        return
+    defined = {n.name for n in tree.body if isinstance(n, ast.FunctionDef)}
+    named = set()
+    for n in tree.body:
+        if isinstance(n, ast.FunctionDef):
+            for dec in n.decorator_list:
+                if isinstance(dec, ast.Call):
+                    for kw in dec.keywords:
+                        if kw.arg == "name" and isinstance(kw.value, ast.Constant):
+                            named.add(kw.value.value)
+    table = None
+    for n in tree.body:
+        if isinstance(n, ast.Assign) and any(isinstance(t, ast.Name) and t.id == "derived_fields_map" for t in n.targets):
+            try:
+                table = ast.literal_eval(n.value)
+            except Exception:
+                table = None
+    if not isinstance(table, dict):
+        viols.append(("C09:yt-fields:no-table", f"{label}: derived_fields_of_network.py has no literal derived_fields_map", None))
+        return
+    keys = [k for k in table if not str(k).startswith(("Elem", "IceElem", "SurfElem"))]
+    names = [sp.name for sp in net.species]
+    if keys[: len(names)] != names:
+        viols.append(("C09:yt-fields:species-keys", f"{label}: derived_fields_map lists {keys[:len(names)]}, the species in slot order are {names}", None))
+    for k, v in table.items():
+        if v not in defined or v not in named:
+            viols.append(("C09:yt-fields:undefined-field", f"{label}: derived_fields_map[{k!r}] = {v!r}, but the file defines no derived field of that name (defined: {sorted(named)[:12]} ...)", None))
+            break
+    used = set(re.findall(r"data\['(\w+_ndensity)'\]", txt))
+    if used - named:
+        viols.append(("C09:yt-fields:undefined-reference", f"{label}: derived_fields_of_network.py reads {sorted(used - named)}, which it never defines", None))
+
+
 def enzo_tables(out, net, entries, order, label, viols):
     """per-species tables of the Enzo patch: the abundance <-> field copy loops, the field lookup and the enum of
     new field types must all list every species once, in slot order, paired with its own field"""
@@ -344,7 +392,8 @@ def run_case(arg):
             out = Path(tempfile.mkdtemp(dir=scratch()))
             try:
                 with quiet():
-                    EnzoPatch("cpu").render(net, templates=["naunet_enzo.h.j2", "Grid_NaunetWrapper.C.j2", "Grid_IdentifyNaunetSpeciesFields.C.j2", "typedefs.h.j2", "hydro_rk/Grid_UpdateElectronDensity.C.j2"] + ENZO_LISTS, path=out)
+                    EnzoPatch("cpu").render(net, templates=["naunet_enzo.h.j2", "Grid_NaunetWrapper.C.j2", "Grid_IdentifyNaunetSpeciesFields.C.j2", "typedefs.h.j2", "hydro_rk/Grid_UpdateElectronDensity.C.j2", "derived_fields.py"] + ENZO_LISTS, path=out)
+                yt_fields(out, net, order, label, viols)
                 txt = (out / "naunet_enzo.h").read_text()
                 nart += 5 + len(ENZO_LISTS)
                 enzo_tables(out, net, entries, order, label, viols)
